@@ -49,6 +49,10 @@ def via_context(ctx: Ctx):
             if ex.cls.qualname in ctx.P.resolve_call(call, m):
                 found = True
                 a = kwarg(call, pname or 'mp_context', 0)
+                if isinstance(a, ast.Name):
+                    # `mp_context = self._get_mp_context()` hoisted into a local of the same method
+                    _g = ctx.cfg(m)
+                    a = expand_locals(_g, ctx.rd(m), a, _g.primary(call))
                 okc = isinstance(a, ast.Call) and isinstance(a.func, ast.Attribute) and a.func.attr == '_get_mp_context' \
                     and isinstance(a.func.value, ast.Name) and a.func.value.id == m.self_name and not a.args
                 yield ctx.ob('C16.VIA-CONTEXT', okc, m, call, 'executor receives this runner\'s own _get_mp_context()',
@@ -393,6 +397,50 @@ def emit_then_clear(ctx: Ctx):
     ok = bool(resets) and any(not (g.reachable([en], avoid=[g.primary(w.node)], exc=False, include_starts=False) & {g.exit}) for w in resets)
     yield ctx.ob('C19.EMIT-THEN-CLEAR', ok, fl, emits[0], 'buffer reset after it was emitted', '' if ok else
                  'flush() emits the buffer but keeps it: every later flush re-emits everything written so far')
+    # a flush with something buffered emits it: the emission is not made to wait for anything but the buffer being non-empty.
+    # (A dormant rate limit whose tunable has a zero class-level default and is set nowhere in the package is accepted.)
+    buf_fields = sorted(read & {w.field for w in field_writes(wr)})
+    empties = [formula_of(ctx, fl, t.format(sn=sn, f=f)) for f in buf_fields for t in ('not {sn}.{f}', 'len({sn}.{f}) == 0')]
+    en0 = g.primary(emits[0])
+    tests = [n.id for n in g.nodes if n.kind == 'test']
+    skips = []      # (test node, polarity): branches that leave flush() without emitting and without asking anything further
+    for t in tests:
+        for (sx, lab) in g.succ.get(t, []):
+            if lab not in ('true', 'false'):
+                continue
+            if sx == g.exit or g.exit in g.reachable([sx], avoid=[en0] + tests, exc=False, include_starts=True) and sx != en0 and sx not in tests:
+                skips.append((t, lab == 'true'))
+    bad_skips = []
+    for (t, pol) in skips:
+        f0 = ctx.fb(fl).build(g.node(t).ast)
+        f0 = f0 if pol else f_not(f0)
+        if not any(implies(f0, e) for e in empties):
+            bad_skips.append((t, pol, f0))
+    ec = f_not(bad_skips[0][2]) if bad_skips else TRUE
+    plain = not bad_skips
+    if not plain:
+        tunables = set()
+        for t in [n for n in walk_local(fl.node) if isinstance(n, (ast.If, ast.While))]:
+            for n in ast.walk(t.test):
+                if isinstance(n, ast.Attribute) and isinstance(n.value, ast.Name) and n.value.id == sn and n.attr not in buf_fields:
+                    tunables.add(n.attr)
+        tuned = []
+        for k in sorted(tunables):
+            dflt = c.consts.get(k)
+            zero = isinstance(dflt, ast.Constant) and isinstance(dflt.value, (int, float)) and not isinstance(dflt.value, bool) and dflt.value == 0
+            setters = [n for f in ctx.P.all_functions() if f.cls is None or f.cls.qualname != c.qualname for n in walk_local(f.node)
+                       if isinstance(n, ast.Attribute) and n.attr == k and isinstance(n.ctx, ast.Store)]
+            own = [w for m in c.methods.values() for w in field_writes(m) if w.field == k]
+            if k in c.consts and zero and not setters and not own:
+                continue
+            if k in c.consts:
+                tuned.append((k, setters[0] if setters else None))
+        dormant = bool(tunables) and not tuned and all(k in c.consts or any(w.field == k for m in c.methods.values() for w in field_writes(m)) for k in tunables) \
+            and any(k in c.consts for k in tunables)
+        plain = dormant
+    yield ctx.ob('C19.EMIT-THEN-CLEAR', plain, fl, emits[0], 'flush() emits whenever something is buffered', '' if plain else
+                 f'flush() returns without emitting when {show(bad_skips[0][2]) if bad_skips else "?"}: a flush that finds output buffered can return without delivering it, and the final flush '
+                 'of a task is the only thing that delivers the tail of its output')
     written = {w.field for w in field_writes(wr)}
     lost = written - read
     yield ctx.ob('C19.EMIT-THEN-CLEAR', not lost, wr, wr.node, f'flush() emits all state written by write() ({sorted(written)})',
@@ -490,6 +538,29 @@ def consume_all(ctx: Ctx):
             and cond_in_loop(ctx, dm, lp, hs[0]) == TRUE
     yield ctx.ob('C19.CONSUME-ALL', okh, dm, hs[0] if hs else lp, 'every record -> logging.getLogger(record.name).handle(record)', '' if okh else
                  'a record taken off the queue is not (always) handed to the logger it was emitted on')
+
+
+@rule('C19.LOG-QUEUE-MANAGED', ['C19'])
+def log_queue_managed(ctx: Ctx):
+    """The log queue is a manager queue (`<...>.Manager().Queue(...)`): its put() returns only after the manager process holds
+    the record, so a record survives the death of the worker that emitted it and is there when the parent drains after the
+    worker's result.  A plain multiprocessing.Queue hands records to a feeder thread of the worker: put() returns before the
+    record left the process, and a worker that dies (or the last one to finish) loses or delays them."""
+    pr = ctx.P.cls('runners.process.ProcessRunner')
+    ws = [w for c in ctx.P.subclasses(pr.qualname) for m in c.methods.values() for w in field_writes(m)
+          if w.field == 'log_queue' and w.kind == 'rebind']
+    if not ws:
+        raise AnalysisError('no assignment to the process runner\'s log_queue found')
+    for w in ws:
+        g = ctx.cfg(w.fn)
+        v = getattr(w.node, 'value', None)
+        if v is not None:
+            v = expand_locals(g, ctx.rd(w.fn), v, g.primary(w.node))
+        ok = isinstance(v, ast.Call) and isinstance(v.func, ast.Attribute) and v.func.attr == 'Queue' \
+            and isinstance(v.func.value, ast.Call) and (dotted(v.func.value.func) or src(v.func.value.func)).split('.')[-1] == 'Manager'
+        yield ctx.ob('C19.LOG-QUEUE-MANAGED', ok, w.fn, w.node, 'log_queue = <...>.Manager().Queue(...)', '' if ok else
+                     f'the log queue is `{src(v) if v is not None else "?"}`, not a manager queue: put() returns before the record has left the worker, '
+                     'so records of a worker that dies, or of the last task to finish, can be lost or arrive after run_tasks returned')
 
 
 @rule('C19.SAME-QUEUE', ['C19'])
